@@ -500,6 +500,8 @@ struct Env {
     preds: Vec<PredDef>,
     /// observation of every action on a new interpreter over the baseline
     fresh: Vec<(Act, Obs)>,
+    /// pool members that did not end as designed on a new instance
+    unmet: Vec<(Act, String)>,
 }
 
 fn slot_key() -> Bytes32 {
@@ -626,6 +628,7 @@ impl Env {
             scripts,
             preds,
             fresh: vec![],
+            unmet: vec![],
         };
         let fresh: Vec<(Act, Obs)> = env
             .alphabet(Mode::Interp)
@@ -642,20 +645,28 @@ impl Env {
                 Act::S(i) => {
                     let want = &env.scripts[*i].expect;
                     let got = o.label();
-                    assert!(
-                        got.starts_with(want.as_str()),
-                        "pool transaction {} ended as {got}, designed as {want}",
-                        env.scripts[*i].name
-                    );
+                    if !got.starts_with(want.as_str()) {
+                        env.unmet.push((
+                            *a,
+                            format!(
+                                "pool transaction {} ended as {got}, designed as {want}",
+                                env.scripts[*i].name
+                            ),
+                        ));
+                    }
                 }
                 Act::P(j) => {
                     let p = o.pre.as_ref().expect("pred obs");
                     let got = if p.check.is_ok() { "Ok" } else { "Err" };
-                    assert_eq!(
-                        got, env.preds[*j].expect,
-                        "pool predicate {}: {:?}",
-                        env.preds[*j].name, p
-                    );
+                    if got != env.preds[*j].expect {
+                        env.unmet.push((
+                            *a,
+                            format!(
+                                "pool predicate {} on a new memory: {:?}, designed as {}",
+                                env.preds[*j].name, p.check, env.preds[*j].expect
+                            ),
+                        ));
+                    }
                 }
             }
         }
@@ -796,6 +807,31 @@ fn strip_digits(s: &str) -> String {
     s.chars().filter(|c| !c.is_ascii_digit()).collect()
 }
 
+/// The contract id attached to a Panic receipt is left out of `Receipt`'s own `==`
+/// (it is not part of the receipts root) but it is part of the receipt handed to the
+/// caller, so it is compared as well.
+fn panic_meta(r: &Receipt) -> Option<Option<ContractId>> {
+    match r {
+        Receipt::Panic {
+            contract_id, ..
+        } => Some(*contract_id),
+        _ => None,
+    }
+}
+
+/// Index of the first differing receipt (or of the first missing one).
+fn receipts_differ(a: &[Receipt], b: &[Receipt]) -> Option<usize> {
+    let i = a
+        .iter()
+        .zip(b.iter())
+        .position(|(x, y)| x != y || panic_meta(x) != panic_meta(y));
+    match i {
+        Some(i) => Some(i),
+        None if a.len() != b.len() => Some(a.len().min(b.len())),
+        None => None,
+    }
+}
+
 /// First differing observable (in the order the statement lists them) and a detail.
 fn diff(fresh: &Obs, reused: &Obs) -> Option<(&'static str, String)> {
     if fresh.pre != reused.pre {
@@ -821,13 +857,7 @@ fn diff(fresh: &Obs, reused: &Obs) -> Option<(&'static str, String)> {
             ),
         ))
     }
-    if fresh.receipts != reused.receipts {
-        let i = fresh
-            .receipts
-            .iter()
-            .zip(reused.receipts.iter())
-            .position(|(a, b)| a != b)
-            .unwrap_or(fresh.receipts.len().min(reused.receipts.len()));
+    if let Some(i) = receipts_differ(&fresh.receipts, &reused.receipts) {
         let show = |r: Option<&Receipt>| {
             format!("{r:?}").chars().take(400).collect::<String>()
         };
@@ -1471,6 +1501,22 @@ fn explore(ctx: &Ctx) {
         ]),
     );
     let env = Env::new();
+    // A pool member that does not behave as designed on a NEW instance makes the check
+    // weaker without anyone noticing: that is a machinery error. Exception: the
+    // two-predicate transaction, whose synchronous check already shares one memory
+    // between its predicates — for it the pool part below is the judge (synchronous
+    // check on one memory versus a pool of new memories).
+    for (a, msg) in &env.unmet {
+        let shares_memory = matches!(a, Act::P(j) if *j == PREDTX)
+            || matches!(a, Act::S(i) if env.scripts[*i].pred.is_some());
+        if !shares_memory {
+            panic!("{msg}");
+        }
+    }
+    ctx.set(
+        "pool_members_not_as_designed",
+        json!(env.unmet.iter().map(|(_, m)| m.clone()).collect::<Vec<_>>()),
+    );
     ctx.set(
         "alphabet",
         json!({
